@@ -49,6 +49,8 @@ def default_settings(argv=()):
 
 
 def make_server(argv=(), data: bytes = b""):
+    import logging
+    logging.disable(logging.CRITICAL)  # the server's own log output is not part of any verdict
     from fortls.jsonrpc import JSONRPC2Connection
     from fortls.langserver import LangServer
     rw = RecordingRW(data)
@@ -82,7 +84,7 @@ class Workspace:
         shutil.rmtree(self.root, ignore_errors=True)
 
 
-def session(ws: Workspace, messages: list, argv=(), init: bool = True):
+def session(ws: Workspace, messages: list, argv=(), init: bool = True, keep_threads: bool = False):
     """Run LangServer.run() over the given messages (initialize prepended); returns (server, outputs)."""
     from fortls.jsonrpc import path_to_uri
     msgs = []
@@ -92,6 +94,7 @@ def session(ws: Workspace, messages: list, argv=(), init: bool = True):
     msgs += messages
     data = b"".join(frame(m) for m in msgs)
     srv, rw = make_server(argv, data)
-    srv.nthreads = 1
+    if not keep_threads:
+        srv.nthreads = 1
     srv.run()
     return srv, parse_out(rw.out)
